@@ -21,15 +21,16 @@ import (
 )
 
 type opSc struct {
-	Lk         lkSc   `json:"lookup"`
-	Op         string `json:"op"` // gcp findpeer getvalue searchvalue findprov findprovasync putvalue provide provideopt
-	Quorum     int    `json:"quorum,omitempty"`
-	Count      int    `json:"count,omitempty"`
-	CancelMs   int    `json:"cancel_ms,omitempty"`    // 0 = never
-	DeadlineMs int    `json:"deadline_ms,omitempty"`  // provide: context deadline (0 = none)
-	NoAddrs    bool   `json:"no_addrs,omitempty"`     // the host advertises no address
-	Abandon    bool   `json:"abandon,omitempty"`      // channel operations: the consumer stops reading the moment it cancels (cancel and walk away)
-	SlowReadMs int    `json:"slow_read_ms,omitempty"` // channel operations: the consumer pauses this long after every value it reads (the producer is then usually blocked handing over the next one)
+	Lk           lkSc   `json:"lookup"`
+	Op           string `json:"op"` // gcp findpeer getvalue searchvalue findprov findprovasync putvalue provide provideopt
+	Quorum       int    `json:"quorum,omitempty"`
+	Count        int    `json:"count,omitempty"`
+	CancelMs     int    `json:"cancel_ms,omitempty"`      // 0 = never
+	DeadlineMs   int    `json:"deadline_ms,omitempty"`    // provide: context deadline (0 = none)
+	NoAddrs      bool   `json:"no_addrs,omitempty"`       // the host advertises no address
+	Abandon      bool   `json:"abandon,omitempty"`        // channel operations: the consumer stops reading the moment it cancels (cancel and walk away)
+	CloseAfterMs int    `json:"close_after_ms,omitempty"` // >0: Close lands this long after the return (0: 10 minutes later, when every timeout of the operation has passed)
+	SlowReadMs   int    `json:"slow_read_ms,omitempty"`   // channel operations: the consumer pauses this long after every value it reads (the producer is then usually blocked handing over the next one)
 }
 
 type opObs struct {
@@ -208,10 +209,22 @@ func runOp(t *testing.T, sc *opSc) opObs {
 			}
 		}
 		// background work must end by itself within the operation's own timeouts, or at Close
-		time.Sleep(10 * time.Minute)
-		verifsim.Quiesce()
-		env.close()
-		closed = true
+		if sc.CloseAfterMs > 0 {
+			// Close lands while work the operation left behind may still be running (a lookup that was told to stop and waits for
+			// its next response, an optimistic provide's remaining puts): either way of ending is allowed, so the census is taken
+			// after the operation's own timeouts have passed as well; what is decided here is that Close in that window neither
+			// panics nor wedges nor keeps anything alive beyond those timeouts.
+			time.Sleep(time.Duration(sc.CloseAfterMs) * time.Millisecond)
+			verifsim.Quiesce()
+			env.close()
+			closed = true
+			time.Sleep(10 * time.Minute)
+		} else {
+			time.Sleep(10 * time.Minute)
+			verifsim.Quiesce()
+			env.close()
+			closed = true
+		}
 		verifsim.Quiesce()
 		for _, g := range verifsim.Census(true) {
 			if strings.Contains(g.Stack, "verifsim.Bubble") || strings.Contains(g.Stack, "synctest.Test") || strings.Contains(g.Stack, "testing.tRunner") {
@@ -314,6 +327,9 @@ func genFaultyPeers(t *rapid.T, s *lkSc, n int) {
 			p.PNoAdr = rapid.IntRange(0, 3).Draw(t, "pnoaddr") == 0
 		}
 		p.Put = rapid.SampledFrom([]string{"", "", "", "fail", "hang"}).Draw(t, "put")
+		if verifsim.Chance(t, "late", 25) {
+			p.LateMs = rapid.SampledFrom([]int{1, 30, 400}).Draw(t, "lateMs")
+		}
 	}
 }
 
@@ -368,7 +384,7 @@ func genOp(t *rapid.T) opSc {
 	case 1:
 		// land on or next to a latency of some peer
 		p := s.Peers[rapid.IntRange(0, n-1).Draw(t, "cancelPeer")]
-		sc.CancelMs = max(1, p.LatMs+p.DialMs+rapid.IntRange(-1, 1).Draw(t, "cancelOff"))
+		sc.CancelMs = max(1, p.LatMs+p.DialMs+rapid.SampledFrom([]int{-300, -20, -1, -1, 0, 1}).Draw(t, "cancelOff"))
 	}
 	if (sc.Op == "provide") && rapid.IntRange(0, 2).Draw(t, "deadline") == 0 {
 		sc.DeadlineMs = rapid.SampledFrom([]int{50, 3000, 9000, 15000, 120000}).Draw(t, "deadlineMs")
@@ -376,6 +392,9 @@ func genOp(t *rapid.T) opSc {
 	sc.NoAddrs = rapid.IntRange(0, 9).Draw(t, "noAddrs") == 0
 	sc.Abandon = sc.CancelMs > 0 && sc.DeadlineMs == 0 && rapid.Bool().Draw(t, "abandon")
 	sc.SlowReadMs = rapid.SampledFrom([]int{0, 0, 40, 700}).Draw(t, "slowRead")
+	if verifsim.Chance(t, "earlyClose", 40) {
+		sc.CloseAfterMs = rapid.SampledFrom([]int{1, 100, 2000, 20000, 50000}).Draw(t, "closeAfterMs")
+	}
 	return sc
 }
 
@@ -384,8 +403,8 @@ func TestVerif_C03_Operations(t *testing.T) {
 		Property: "C03", Part: "operations",
 		Rule: "rapid: operation in {GetClosestPeers, FindPeer, GetValue, SearchValue (quorum 0/1/2/16), FindProviders, FindProvidersAsync (count 0/1/2/5), PutValue, Provide classic (with/without " +
 			"deadline), Provide optimistic (size estimator primed from the peer pool, the key's truly nearest peers included)} x 1-25 simulated peers with fault mixes (mixed, all failing, all silent, slow tail; " +
-			"failing/hanging write recipients) x cancellation instant (never, uniform, on/next to a peer's latency); under synctest: the call must return within 1 s of virtual time after the last contacted peer " +
-			"answered/failed/timed out (or after cancellation), channels are drained to closure (or abandoned by the consumer the moment it cancels), no panic, and 10 min after the return plus Close no goroutine of the bubble may be alive; " +
+			"failing/hanging write recipients; some peers deliver an answer that was 1-400 ms away when the request's context ended) x cancellation instant (never, uniform, on/next to a peer's latency); under synctest: the call must return within 1 s of virtual time after the last contacted peer " +
+			"answered/failed/timed out (or after cancellation), channels are drained to closure (or abandoned by the consumer the moment it cancels), no panic, and 10 min after the return plus Close (Close 10 min after the return, or - 40% - 1 ms-50 s after it, while work left behind may still be running) no goroutine of the bubble may be alive; " +
 			"non-trivial = a failing or silent peer, or a cancellation that landed inside the operation",
 		Gen: genOp,
 		Run: func(t *testing.T, sc opSc) (res verifsim.Result) {
